@@ -9,17 +9,17 @@ divisibility `d`.
 -/
 import RadixModel.Model.Pool
 import RadixModel.Lemmas.Pool
+import RadixModel.Lemmas.PoolMulti
+import RadixModel.Lemmas.PoolInv
 
 namespace Radix.Pool
 
 /-! ## 1. A redemption never pays more than the pro-rata share (all three pools share
 `calculate_amount_owed`) -/
 
-/-- What a redeemer of `u` out of `s` units may receive from a reserve `r` of divisibility `d`. -/
-def OwedOk (u s : Int) (rd : Int × Nat) (o : Int) : Prop :=
-  0 ≤ o ∧ o * s ≤ u * rd.1 ∧ unitOf rd.2 ∣ o ∧ (u ≤ s → o ≤ rd.1)
-
-/-- For every reserve: the owed amount is non-negative, at most `u/s` of the reserve (exact rational
+/-- `OwedOk u s (r, d) o` (Lemmas/Pool.lean) is
+`0 ≤ o ∧ o * s ≤ u * r ∧ unitOf d ∣ o ∧ (u ≤ s → o ≤ r)`; `All2` relates two lists elementwise.
+For every reserve: the owed amount is non-negative, at most `u/s` of the reserve (exact rational
 comparison, cross-multiplied), a multiple of the resource's unit, and at most the reserve itself
 whenever `u ≤ s` (so the vault can always pay and never goes negative). -/
 theorem redeem_le_pro_rata {u s : Int} {rs : List (Int × Nat)} {os : List Int}
@@ -90,11 +90,7 @@ example : multiContribute 1000 [(1000, 2000, 18), (2000, 3000, 18), (3000, 4000,
 
 /-! ## 4. Reserves never go negative, over every operation sequence -/
 
-/-- State invariant: supply and every reserve are non-negative and the lists have one entry per
-resource. -/
-def Inv (p : Pool) : Prop :=
-  0 ≤ p.supply ∧ (∀ r ∈ p.reserves, 0 ≤ r) ∧ p.reserves.length = p.divs.length
-
+/-- `Inv p := 0 ≤ p.supply ∧ ∀ r ∈ p.reserves, 0 ≤ r` (Lemmas/PoolInv.lean). -/
 theorem inv_new (k : Kind) (divs : List Nat) : Inv (newPool k divs) := inv_newPool k divs
 
 /-- every operation (contribute / redeem / protected deposit / protected withdraw, with any
